@@ -99,7 +99,16 @@ fn gen_op(rng: &mut StdRng, d: &Driver, profile: &str) -> Value {
                 let rows: Vec<Vec<u32>> = (0..n).map(|_| vals(rng)).collect();
                 return json!({"op": "extend", "w": w, "order": pick_order(rng), "rows": rows, "extra": rng.gen_range(0..3)});
             }
-            28..=43 => return json!({"op": "remove", "w": w, "e": target(rng)}),
+            28 => {
+                // ragged batch: 3 or 4 columns, one of them with a different length
+                let n = rng.gen_range(3..5);
+                let base = rng.gen_range(0..4);
+                let mut lens: Vec<usize> = vec![base; n];
+                let k = rng.gen_range(0..n);
+                lens[k] = if base == 0 { rng.gen_range(1..4) } else if rng.gen_bool(0.5) { base - 1 } else { base + rng.gen_range(1..3) };
+                return json!({"op": "extend_ragged", "w": w, "lens": lens});
+            }
+            29..=43 => return json!({"op": "remove", "w": w, "e": target(rng)}),
             44..=45 => return json!({"op": "clear", "w": w}),
             46..=55 => return json!({"op": "add", "w": w, "e": target(rng), "c": pick_comp(rng), "v": rng.gen_range(1..900)}),
             56..=63 => return json!({"op": "remc", "w": w, "e": target(rng), "c": pick_comp(rng)}),
@@ -135,6 +144,12 @@ fn gen_op(rng: &mut StdRng, d: &Driver, profile: &str) -> Value {
                 let q = rng.gen_range(0..qfamily::N_QUERIES);
                 if qfamily::needs_target(q) {
                     return json!({"op": "query", "w": w, "q": q, "v": rng.gen_range(1..50), "e": target(rng)});
+                }
+                if qfamily::is_par(q) {
+                    // parallel queries always run inside an explicit pool (rayon's own bookkeeping for
+                    // jobs injected from the main thread is not the library's memory)
+                    let pool = [1, 2, 3, 4, 8][rng.gen_range(0..5)];
+                    return json!({"op": "query", "w": w, "q": q, "v": rng.gen_range(1..50), "pool": pool});
                 }
                 return json!({"op": "query", "w": w, "q": q, "v": rng.gen_range(1..50), "st": rng.gen_range(0..4)});
             }
